@@ -1,7 +1,94 @@
-/- stub: overwritten by the builder of this engine -/
-import Driver.Common
+/-
+Driver for E5/print (C15).
+  {"op":"print","node":N,"cfg":"generated"|"prefix","cap":k}
+      → {"toks":[tok…],"wf":bool,"read":N|null,"norm":N,"postfix_ok":bool}
+  {"op":"read","toks":[tok…],"cap":k} → {"node":N|null}
+  {"op":"pyrepr","kind":"t"|"b","v":[nat…],"printable":[nat…]} → {"text":[nat…]}
+  {"op":"pyeval","kind":"t"|"b","text":[nat…]} → {"v":[nat…]|null}
+tok := "(" | ")" | "|" | "*" | "+" | "?" | ["{",n] | ["{",n,m] | ["{,",n]
+     | ["nt",name,sender|null,recipient|null] | ["lit",leaf] | ["re",id]
+-/
+import Driver.IRJson
+import Model.Print
+import Model.PyLit
+import Generated.Print
 open Lean FV FV.Drv
 
-def handle (_ : Json) : Except String Json := throw "driver not implemented"
+def jNat (n : Nat) : Json := Json.num (JsonNumber.fromNat n)
+
+def jTok : PTok → Json
+  | .lp => "(" | .rp => ")" | .bar => "|" | .star => "*" | .plus => "+" | .quest => "?"
+  | .repN n => Json.arr #["{", jNat n]
+  | .repNM n m => Json.arr #["{", jNat n, jNat m]
+  | .repOpen n => Json.arr #["{,", jNat n]
+  | .nt n s r => Json.arr #["nt", Json.str n, jOptStr s, jOptStr r]
+  | .lit l => Json.arr #["lit", jLeaf l]
+  | .re i => Json.arr #["re", jNat i]
+
+def tokOf (j : Json) : Except String PTok := do
+  match j with
+  | .str "(" => return .lp
+  | .str ")" => return .rp
+  | .str "|" => return .bar
+  | .str "*" => return .star
+  | .str "+" => return .plus
+  | .str "?" => return .quest
+  | .arr a =>
+    let tag ← (a[0]?.getD Json.null).getStr?
+    let el (i : Nat) : Json := a[i]?.getD Json.null
+    match tag, a.size with
+    | "{", 2 => return .repN (← (el 1).getNat?)
+    | "{", 3 => return .repNM (← (el 1).getNat?) (← (el 2).getNat?)
+    | "{,", 2 => return .repOpen (← (el 1).getNat?)
+    | "nt", 4 => return .nt (← (el 1).getStr?) (optStr (el 2)) (optStr (el 3))
+    | "lit", 2 => return .lit (← leafOfJson (el 1))
+    | "re", 2 => return .re (← (el 1).getNat?)
+    | _, _ => throw s!"bad token {j.compress}"
+  | _ => throw s!"bad token {j.compress}"
+
+def jOptNode : Option Node → Json
+  | some n => jNode n
+  | none => Json.null
+
+def handle (j : Json) : Except String Json := do
+  let op ← j.getObjValAs? String "op"
+  match op with
+  | "print" =>
+    let n ← nodeOf (← j.getObjVal? "node")
+    let cap ← j.getObjValAs? Nat "cap"
+    let cfgName ← j.getObjValAs? String "cfg"
+    let cfg ← match cfgName with
+      | "generated" => pure { Generated.printCfg with cap := cap }
+      | "prefix" => pure (PrintCfg.preFix cap)
+      | "fixed" => pure (PrintCfg.fixed cap)
+      | s => throw s!"unknown cfg {s}"
+    let toks := print cfg n
+    return Json.mkObj [("toks", Json.arr (toks.map jTok).toArray), ("wf", Json.bool (wf cap n)),
+      ("read", jOptNode (read cap toks)), ("norm", jNode (norm n)),
+      ("postfix_ok", Json.bool (postfixOk none toks))]
+  | "read" =>
+    let cap ← j.getObjValAs? Nat "cap"
+    let toks ← (← (← j.getObjVal? "toks").getArr?).toList.mapM tokOf
+    return Json.mkObj [("node", jOptNode (read cap toks))]
+  | "pyrepr" =>
+    let kind ← j.getObjValAs? String "kind"
+    let v ← natArr (← j.getObjVal? "v")
+    match kind with
+    | "t" =>
+      let pr ← natArr (← j.getObjVal? "printable")
+      return Json.mkObj [("text", jNats (PyLit.reprStr (fun c => pr.contains c) v))]
+    | "b" =>
+      if v.any (fun c => c ≥ 256) then throw "byte out of range"
+      return Json.mkObj [("text", jNats (PyLit.reprBytes v))]
+    | k => throw s!"unknown kind {k}"
+  | "pyeval" =>
+    let kind ← j.getObjValAs? String "kind"
+    let t ← natArr (← j.getObjVal? "text")
+    let r ← match kind with
+      | "t" => pure (PyLit.evalStr t)
+      | "b" => pure (PyLit.evalBytes t)
+      | k => throw s!"unknown kind {k}"
+    return Json.mkObj [("v", match r with | some v => jNats v | none => Json.null)]
+  | _ => throw s!"unknown op {op}"
 
 def main : IO Unit := run handle
